@@ -19,6 +19,7 @@ CHECKS = {
     'C05': 'harness.c05',
     'C06': 'harness.c06',
     'C07': 'harness.c07',
+    'C08': 'harness.c08',
     'C10': 'harness.c10',
     'C12': 'harness.c12',
 }
